@@ -87,6 +87,7 @@ func extractPanics(outDir string) error {
 		return err
 	}
 	var sites []panicSite
+	var stores [][4]string
 	lexerSites := map[string]int{}
 	for _, pkg := range pkgs {
 		info := pkg.TypesInfo
@@ -194,6 +195,20 @@ func extractPanics(outDir string) error {
 						}
 						add("assert", x)
 					case *ast.CallExpr:
+						if sel, ok := x.Fun.(*ast.SelectorExpr); ok && (sel.Sel.Name == "Store" || sel.Sel.Name == "LoadOrStore" || sel.Sel.Name == "Add") {
+							if tv, ok := info.Types[sel.X]; ok {
+								ts := tv.Type.String()
+								if strings.HasSuffix(ts, "sync.Map") || strings.HasSuffix(ts, "atomic.Value") || strings.HasSuffix(ts, "lru.Cache") {
+									var ats []string
+									for _, a := range x.Args {
+										if atv, ok := info.Types[a]; ok {
+											ats = append(ats, types.TypeString(atv.Type, func(p *types.Package) string { return p.Name() }))
+										}
+									}
+									stores = append(stores, [4]string{fn, exprText(pkg.Fset, sel.X), sel.Sel.Name, strings.Join(ats, " , ")})
+								}
+							}
+						}
 						if id, ok := x.Fun.(*ast.Ident); ok && id.Name == "panic" {
 							if _, isBuiltin := info.Uses[id].(*types.Builtin); isBuiltin {
 								add("panic", x)
@@ -253,6 +268,17 @@ func extractPanics(outDir string) error {
 			sep = ""
 		}
 		fmt.Fprintf(&sb, "  (%s, %d)%s\n", leanStr(k), lexerSites[k], sep)
+	}
+	sb.WriteString("]\n\n")
+	sort.Slice(stores, func(i, j int) bool { return fmt.Sprint(stores[i]) < fmt.Sprint(stores[j]) })
+	sb.WriteString("/-- every write into a sync.Map / atomic.Value: (function, container, method, static types of the arguments) -/\n")
+	sb.WriteString("def stores : List (String × String × String × String) := [\n")
+	for i, st := range stores {
+		sep := ","
+		if i == len(stores)-1 {
+			sep = ""
+		}
+		fmt.Fprintf(&sb, "  (%s, %s, %s, %s)%s\n", leanStr(st[0]), leanStr(st[1]), leanStr(st[2]), leanStr(st[3]), sep)
 	}
 	sb.WriteString("]\n\nend CqlVerif.Gen.PanicSites\n")
 	return writeGen(outDir, "PanicSites.lean", sb.String())
